@@ -3,6 +3,7 @@
 
 #[path = "../../mux/src/util.rs"]
 mod util;
+mod c01;
 mod c14;
 mod c17;
 mod c19;
@@ -44,6 +45,7 @@ fn main() {
     let (cmd, p) = parse_args();
     let t0 = std::time::Instant::now();
     let (st, rule): (Stats, &str) = match cmd.as_str() {
+        "c01" => c01::run(&p),
         "c14" => c14::run(&p),
         "c17" => c17::run(&p),
         "c19" => c19::run(&p),
